@@ -1155,6 +1155,7 @@ func (fr *Frame) instr(ins ssa.Instruction, st *State) {
 	case *ssa.BinOp:
 		fr.binop(x, st)
 	case *ssa.Store:
+		fr.aliasCheckStore(x, st)
 		lv := fr.lvalOf(x.Addr, st)
 		if lv.kind == lvObj {
 			fr.nopanic(st, "nil", x.Pos(), not(app("=", lv.ref, "0")), "nil dereference")
@@ -1895,4 +1896,128 @@ func (fr *Frame) next(x *ssa.Next, st *State) {
 	}
 	c.heapSet(st, key, ite(okN, app("+", pos, "1"), pos))
 	fr.vals[x] = Val{Tup: []Val{{T: Term{okN, SBool, tBool}}, {T: Term{k, ks, m.Key()}}, {T: Term{v, vs, m.Elem()}}}}
+}
+
+// ---------------------------------------------------------------------------------------
+// A-ALIAS guard.  Slices have value semantics in the model; that is only faithful while no two live
+// locations share a backing array.  A slice value loaded from one location and stored (or handed to a
+// callee that retains it) into another location, without a copy in between, creates such sharing: it is
+// reported as an obligation of kind "alias" that cannot be discharged (unless the contract says
+// allow_alias, which is then listed as an assumption).
+
+func isMutableSlice(t types.Type) bool {
+	s, ok := types.Unalias(t).Underlying().(*types.Slice)
+	if !ok {
+		return false
+	}
+	_ = s
+	return true
+}
+
+// sliceOrigin follows reslicing / phis / type changes back to the load the slice value came from
+// (nil when it was freshly built: make, append, conversion from a string, call result, parameter).
+func sliceOrigin(v ssa.Value, depth int) *ssa.UnOp {
+	if depth > 6 {
+		return nil
+	}
+	switch x := v.(type) {
+	case *ssa.UnOp:
+		if x.Op == token.MUL {
+			return x
+		}
+	case *ssa.Slice:
+		if _, isPtr := x.X.Type().Underlying().(*types.Pointer); isPtr {
+			return nil
+		}
+		return sliceOrigin(x.X, depth+1)
+	case *ssa.ChangeType:
+		return sliceOrigin(x.X, depth+1)
+	case *ssa.Phi:
+		var o *ssa.UnOp
+		for _, e := range x.Edges {
+			if eo := sliceOrigin(e, depth+1); eo != nil {
+				o = eo
+			}
+		}
+		return o
+	}
+	return nil
+}
+
+func sameLoc(a, b *LVal) bool {
+	if a == nil || b == nil {
+		return false
+	}
+	if a.kind != b.kind || a.key != b.key || a.ref != b.ref || a.idx != b.idx || a.field != b.field {
+		return false
+	}
+	if a.parent != nil || b.parent != nil {
+		return sameLoc(a.parent, b.parent)
+	}
+	return true
+}
+
+func (fr *Frame) aliasCheckStore(x *ssa.Store, st *State) {
+	c := fr.c
+	if !fr.top || c.fc == nil || !isMutableSlice(x.Val.Type()) {
+		return
+	}
+	o := sliceOrigin(x.Val, 0)
+	if o == nil {
+		return
+	}
+	src, ok := fr.prov[o]
+	if !ok {
+		return
+	}
+	dst := fr.lvalOf(x.Addr, st)
+	if sameLoc(src, dst) {
+		return
+	}
+	if dst.kind == lvLocal || src.kind == lvLocal {
+		return
+	}
+	if c.fc.AllowAlias != "" {
+		c.abstracted("alias allowed: " + c.fc.AllowAlias)
+		return
+	}
+	_, line := c.eng.srcLine(x.Pos())
+	ob := c.obligation("alias", "", x.Pos(), line, st.reach, "false", nil)
+	ob.Note = "a slice loaded from one location is stored into another without a copy: the two share a backing array, in-place writes through one are visible through the other (outside the value-semantics model, A-ALIAS)"
+}
+
+// aliasCheckCall: a loaded slice handed to a callee that retains the parameter.
+func (fr *Frame) aliasCheckCall(fc *FuncContract, callee *ssa.Function, cc *ssa.CallCommon, st *State, pos token.Pos) {
+	c := fr.c
+	if !fr.top || c.fc == nil || callee == nil || len(fc.Retains) == 0 {
+		return
+	}
+	for i, p := range callee.Params {
+		if i >= len(cc.Args) || !isMutableSlice(p.Type()) {
+			continue
+		}
+		ret := false
+		for _, r := range fc.Retains {
+			if r == p.Name() {
+				ret = true
+			}
+		}
+		if !ret {
+			continue
+		}
+		o := sliceOrigin(cc.Args[i], 0)
+		if o == nil {
+			continue
+		}
+		if _, ok := fr.prov[o]; !ok {
+			continue
+		}
+		if c.fc.AllowAlias != "" {
+			c.abstracted("alias allowed: " + c.fc.AllowAlias)
+			continue
+		}
+		_, line := c.eng.srcLine(pos)
+		ob := c.obligation("alias", "", pos, line, st.reach, "false", nil)
+		ob.Note = "a slice loaded from a location is handed to " + shortFuncName(callee.String()) + ", which keeps it (retains " + p.Name() + "): the two locations share a backing array (outside the value-semantics model, A-ALIAS)"
+	}
 }
